@@ -102,7 +102,7 @@ def k2 (ts : List Tok) : Option TK :=
 /-- level `L` does not continue an operand that is followed by tokens of kinds `a`, `b` -/
 def noContK (L : Level) (a b : Option TK) : Bool :=
   match L with
-  | .binary _ _ map => match a with | none => true | some k => (map.lookup k).isNone
+  | .binary _ _ _ map => match a with | none => true | some k => (map.lookup k).isNone
   | .assLv => match a with | none => true | some k => (assignToks.lookup k).isNone
   | .cndLv => a != some .QUEST
   | .inLv => a != some .IN
@@ -153,7 +153,7 @@ theorem climb (full : List Level) (n : Nat) (pre base : List Level) (ts rest : L
     have hL := hp.1
     rw [List.cons_append]
     cases L with
-    | binary fn sk map =>
+    | binary fn sk ra map =>
       rw [parseLv, h']; simp only []
       cases rest with
       | nil => rw [binLoop]
